@@ -1838,6 +1838,12 @@ func (b *Block) setExportedVars() (err error) {
 		return fmt.Errorf("number of labels (%d) exceeds what can be contained in max block size %d", numLabels, MaxBlockSize)
 	}
 
+	// All section sizes come from the (untrusted) header, so check them against the data actually present,
+	// using 64-bit arithmetic so that oversized counts cannot wrap around.
+	dataLen := uint64(len(b.data))
+	if 16+uint64(numLabels)*8 > dataLen {
+		return fmt.Errorf("block header declares %d labels but only %d bytes of data are present", numLabels, dataLen)
+	}
 	b.Labels, err = dvid.AliasByteToUint64(b.data[16 : 16+numLabels*8])
 	if err != nil {
 		return
@@ -1853,20 +1859,30 @@ func (b *Block) setExportedVars() (err error) {
 	pos := uint32(16)
 	pos += numLabels * 8
 	nbytes := numSubBlocks * 2
+	if numSubBlocks == 0 || uint64(pos)+uint64(gx)*uint64(gy)*uint64(gz)*2 > dataLen {
+		return fmt.Errorf("block header declares %d x %d x %d sub-blocks but only %d bytes of data are present", gx, gy, gz, dataLen)
+	}
 	b.NumSBLabels, err = dvid.AliasByteToUint16(b.data[pos : pos+nbytes])
 	if err != nil {
 		return
 	}
-	var numSubBlockIndices uint32
+	var numSubBlockIndices uint64
 	for _, num := range b.NumSBLabels {
-		numSubBlockIndices += uint32(num)
+		numSubBlockIndices += uint64(num)
 	}
 
 	pos += nbytes
-	subBlockIndexBytes := numSubBlockIndices * 4
-	b.SBIndices, err = dvid.AliasByteToUint32(b.data[pos : pos+subBlockIndexBytes])
-	if err != nil {
-		return
+	if uint64(pos)+numSubBlockIndices*4 > dataLen {
+		return fmt.Errorf("block declares %d sub-block indices but only %d bytes of data are present", numSubBlockIndices, dataLen)
+	}
+	subBlockIndexBytes := uint32(numSubBlockIndices * 4)
+	if subBlockIndexBytes == 0 {
+		b.SBIndices = nil
+	} else {
+		b.SBIndices, err = dvid.AliasByteToUint32(b.data[pos : pos+subBlockIndexBytes])
+		if err != nil {
+			return
+		}
 	}
 
 	pos += subBlockIndexBytes
